@@ -29,8 +29,12 @@ def kindname(cfg):
     return "FQ" if cfg.mc is None else "FQ%d" % len(cfg.mc)
 
 
-def fqform_case(cr, co, xm, partner):
-    """[(op, (expected, observed))] mismatches for the element xm built from FQ-object coefficients"""
+CTOR_FORMS = ["fq-objects", "tuple+p", "tuple-p", "list+5p", "tuple-mixed", "tuple-of-int-subclass"]
+
+
+def fqform_case(cr, co, xm, partner, form="fq-objects"):
+    """[(op, (expected, observed))] mismatches for the element xm built through another constructor form:
+    FQ-object coefficients, tuples / lists of unreduced or negative ints, int-subclass coefficients"""
     from .. import lib as _lib
 
     out = []
@@ -39,7 +43,22 @@ def fqform_case(cr, co, xm, partner):
     for fam, cfg in (("ref", cr), ("opt", co)):
         FQc = _lib.fq_class(fam, p)
         try:
-            els[fam] = cfg.cls([FQc(c) for c in xm])
+            if form == "fq-objects":
+                els[fam] = cfg.cls([FQc(c) for c in xm])
+            elif form == "tuple+p":
+                els[fam] = cfg.cls(tuple(c + p for c in xm))
+            elif form == "tuple-p":
+                els[fam] = cfg.cls(tuple(c - p for c in xm))
+            elif form == "list+5p":
+                els[fam] = cfg.cls([c + 5 * p for c in xm])
+            elif form == "tuple-mixed":
+                els[fam] = cfg.cls(tuple((c - 3 * p) if i % 2 else (c + p * p) for i, c in enumerate(xm)))
+            else:
+                els[fam] = cfg.cls(tuple(fl.IntSub(c + p) for c in xm))
+            if form != "fq-objects":
+                raw = tuple(int(c) for c in els[fam].coeffs)
+                if raw != tuple(xm):
+                    out.append(("stored-coefficients:%s" % fam, (list(xm), list(raw)[:12])))
         except Exception as e:  # noqa: BLE001
             els[fam] = ("raise", type(e).__name__)
     if isinstance(els["ref"], tuple) or isinstance(els["opt"], tuple):
@@ -179,7 +198,7 @@ def replay_errpath(a):
 
 def replay_fqform(a):
     cr, co = fl.cfg_of(a, "ref"), fl.cfg_of(a, "opt")
-    bad = fqform_case(cr, co, tuple(a["x"]), tuple(a["y"]) if a.get("y") else None)
+    bad = fqform_case(cr, co, tuple(a["x"]), tuple(a["y"]) if a.get("y") else None, a.get("form", "fq-objects"))
     return None if not bad else {"mismatches": [(op, e, g) for op, (e, g) in bad]}
 
 
@@ -223,10 +242,12 @@ def task_tables(a, env):
         small_exps = [0, 1, 2, 3, q - 1, q]
         more_exps = sorted(set(range(4, 17)) | {p, p * p, q + 1})
     huge = [2 ** 700 + 1, 2 ** 4400 + 1, fl.IntSub(q + 2), 2 ** 61 - 1 + 2, 10 ** 4400 + 7]
+    # exponents below zero: whatever the reference class answers, the optimized class answers the same
+    neg_exps = [-1, -2, -3, -q, -(2 ** 70) - 1]
     for i, xm in enumerate(A):
         cmp("neg", xm)
         cmp("inv", xm)
-        for n in small_exps + (more_exps if i < 12 else []):
+        for n in small_exps + (more_exps if i < 12 else []) + (neg_exps if i < 40 else neg_exps[:1]):
             cmp("pow", xm, n, "exp")
         if i < 3:
             for n in huge if i < 2 else huge[:-1]:
@@ -243,13 +264,15 @@ def task_tables(a, env):
     # form): same values, same sgn0, same results in both families
     if cr.mc is not None:
         partner = next((b for b in B if not F.is_zero(b)), None)
-        for xm in A[:600]:
-            for (op, bad_out) in fqform_case(cr, co, xm, partner):
-                r.viol("C14:%s:fq-coefficient-form:%s" % (kind, op), ME + ":replay_fqform",
-                       {"p": p, "mc": a.get("mc"), "x": list(xm), "y": list(partner) if partner else None},
-                       bad_out[0], bad_out[1], note=op)
-            r.ev += 6
-            r.transitions += 6
+        for xi, xm in enumerate(A[:600]):
+            for form in (CTOR_FORMS if xi < 60 else CTOR_FORMS[:1]):
+                for (op, bad_out) in fqform_case(cr, co, xm, partner, form):
+                    r.viol("C14:%s:%s:%s" % (kind, "fq-coefficient-form" if form == "fq-objects" else "constructor-form", op),
+                           ME + ":replay_fqform",
+                           {"p": p, "mc": a.get("mc"), "x": list(xm), "y": list(partner) if partner else None, "form": form},
+                           bad_out[0], bad_out[1], note="%s / %s" % (form, op))
+                r.ev += 6
+                r.transitions += 6
     # error paths followed by ordinary operations
     nzq = [b for b in B if not F.is_zero(b)][:2]
     for xm in [e for e in A if not F.is_zero(e)][:6]:
